@@ -14,29 +14,32 @@ void parsec_output_verbose(int level, int id, const char *fmt, ...) { (void)leve
 /* typed header first: the arena's accesses to the chunk header are then ordinary member accesses for
  * the solver (a plain byte array made every header access a 384-byte byte-extract) */
 typedef struct { _Alignas(64) parsec_arena_chunk_t hdr; unsigned char rest[BLKSZ - sizeof(parsec_arena_chunk_t)]; } vp_blk_t;
-static vp_blk_t BLK[NBLK];
-static int blk_state[NBLK];        /* 0 never used, 1 handed out by the allocator, 2 returned to the allocator */
-static size_t blk_req[NBLK];
+static vp_blk_t BLK0, BLK1, BLK2, BLK3;     /* separate objects: a symbolically indexed array of structs explodes */
+static int bs0, bs1, bs2, bs3;     /* block state: 0 never used, 1 handed out by the allocator, 2 returned to the allocator */
+static size_t br0, br1, br2, br3;  /* requested size */
+static inline int blk_state_of(int i){ return i == 0 ? bs0 : i == 1 ? bs1 : i == 2 ? bs2 : bs3; }
+static inline size_t blk_req_of(int i){ return i == 0 ? br0 : i == 1 ? br1 : i == 2 ? br2 : br3; }
+static inline void blk_set(int i, int st){ if(i == 0) bs0 = st; else if(i == 1) bs1 = st; else if(i == 2) bs2 = st; else bs3 = st; }
 static int n_sysalloc, n_sysfree, sys_double_free, sys_overflow;
 
 static void *vp_data_allocate(size_t size)
 {
     int n = __sync_fetch_and_add(&n_sysalloc, 1);
     if(n >= NBLK || size > BLKSZ) { sys_overflow = 1; return NULL; }
-    blk_state[n] = 1; blk_req[n] = size;
-    if(n == 0) return &BLK[0]; if(n == 1) return &BLK[1]; if(n == 2) return &BLK[2]; return &BLK[3];
+    blk_set(n, 1); if(n == 0) br0 = size; else if(n == 1) br1 = size; else if(n == 2) br2 = size; else br3 = size;
+    if(n == 0) return &BLK0; if(n == 1) return &BLK1; if(n == 2) return &BLK2; return &BLK3;
 }
 static int blk_index(void *p)
 {
-    if(p == (void*)&BLK[0]) return 0; if(p == (void*)&BLK[1]) return 1; if(p == (void*)&BLK[2]) return 2; if(p == (void*)&BLK[3]) return 3;
+    if(p == (void*)&BLK0) return 0; if(p == (void*)&BLK1) return 1; if(p == (void*)&BLK2) return 2; if(p == (void*)&BLK3) return 3;
     return -1;
 }
 static void vp_data_free(void *p)
 {
     int i = blk_index(p);
     __sync_fetch_and_add(&n_sysfree, 1);
-    if(i < 0 || blk_state[i] != 1) { sys_double_free = 1; return; }
-    blk_state[i] = 2;
+    if(i < 0 || blk_state_of(i) != 1) { sys_double_free = 1; return; }
+    blk_set(i, 2);
 }
 /* stand-ins for data.c (not under test here) */
 parsec_data_allocate_t parsec_data_allocate = vp_data_allocate;
